@@ -7,25 +7,7 @@ Imports only Model/Gen/Spec (core Lean), so it links as a native executable.
 -/
 import Precis.Model.Profiles
 import Precis.Spec.Verdict
-open Precis
-
-def hexVal (c : Char) : Option Nat :=
-  if '0' ≤ c ∧ c ≤ '9' then some (c.toNat - '0'.toNat)
-  else if 'a' ≤ c ∧ c ≤ 'f' then some (c.toNat - 'a'.toNat + 10)
-  else if 'A' ≤ c ∧ c ≤ 'F' then some (c.toNat - 'A'.toNat + 10)
-  else none
-
-def parseHex (s : String) : Nat :=
-  s.foldl (fun acc c => match hexVal c with | some v => acc * 16 + v | none => acc) 0
-
-def parseStr (f : String) : List Nat :=
-  (f.splitOn " ").filterMap (fun t => if t.isEmpty then none else some (parseHex t))
-
-def hex4 (n : Nat) : String :=
-  let s := (Nat.toDigits 16 n).map Char.toUpper
-  String.ofList (List.replicate (4 - s.length) '0' ++ s)
-
-def fmtStr (s : List Nat) : String := " ".intercalate (s.map hex4)
+open Precis Precis.Proto
 
 def fmtErr : Err → String
   | .invalid => "err:Invalid"
